@@ -978,6 +978,9 @@ func (l *lexer) lexCode(end tokenTyp) error {
 	var macroOrUsing bool
 	// endStatement indicates if the first token of the statement is "end".
 	var endStatement bool
+	// label indicates if the first token of the statement is an identifier,
+	// that may be a label.
+	var label bool
 	// ident stores the index and the text of the last lexed identifier after a macro or a using keyword.
 	var ident struct {
 		index int
@@ -1325,6 +1328,11 @@ LOOP:
 			} else {
 				l.emit(tokenColon, 1)
 				l.column++
+				if end == tokenEndStatement && label && l.totals == first+1 {
+					// The statement starts with a label: the statement proper
+					// starts with the next token.
+					first = l.totals + 1
+				}
 			}
 			endLineAsSemicolon = false
 		case ',':
@@ -1392,6 +1400,8 @@ LOOP:
 						if len(l.contexts) > 0 {
 							l.contexts = append(l.contexts, l.ctx)
 						}
+					case tokenIdentifier:
+						label = true
 					}
 				} else if typ == tokenUsing && !endStatement {
 					// (the "using" of "{% end using %}" does not start a using statement)
